@@ -28,7 +28,10 @@ RULE = ("cases: create_from_fixed_nb_of_points (dyadic h, nb 0..60, dim 1..3), C
         "wrapper through the real root search; rational-ratio bounds incl. ratios < 1) must refuse with the guard ValueError; regular "
         "states of compute_right_axis (constant density, HEM) against ps_axis with the closed-form root (interval lemmas).  "
         "non-trivial = distinct case with >= 2 states on a side or >= 1 refinement")
-MODELLED = ["numpy arrays as lists of Q (lists of R for np.geomspace axes with arbitrary real bounds); np.insert/np.concatenate/list "
+MODELLED = ["wave 8: CTMCGridProbabilityStep argument guards: minimum_probability_step > 0 (probstep_ctor; /repo be7f020) and float half axes for an int h "
+            "(np.insert(axis, 0, v) = v :: axis holds for float arrays only; /repo c939deb; the harness now also passes Python-int h); NOT evaluated by any "
+            "case: ps_axis on the left side, CTMCGridProbabilityStep.middle's fall-backs",
+            "numpy arrays as lists of Q (lists of R for np.geomspace axes with arbitrary real bounds); np.insert/np.concatenate/list "
             "comprehension semantics (tied by exact correspondence)",
             "np.linspace as start + i*(stop-start)/(num-1) over Q: tied EXACTLY on dyadic bounds/steps (uniform_exact group, dim 1-3) "
             "and within 1e-12 on root-found bounds; int(x) as floor of the exact quotient (cases where the float division rounds "
@@ -68,8 +71,12 @@ ASSUMPTIONS = ["grid.middle returns a point strictly inside a gap, and x/2 next 
                "along the axis, and that the real root function agrees with the loop's oracle on the searches performed",
                "C13_probstep_right_loop / _left_loop / _ctor_admissible assume of the root finder only that a returned root lies strictly "
                "beyond the bracket end it started from (monitored on every recorded root search: histogram probloop_root_beyond_bracket_end), "
-               "and that the loop terminates (fuel); C13_probstep_right_shape / _left_shape additionally assume F(root x) - F x == q and "
-               "that a refusal is monotone along the axis (bracket [x, 100] resp. [-100, x])",
+               "and that the loop terminates (fuel).  The hypothesis is NOT discharged for brentq and is false for minimum_probability_step = 0 "
+               "(f(a) = 0: brentq returns its end) -- an input the repaired constructor refuses (F-C13-9).  C13_probstep_right_shape_spec / "
+               "_left_shape_spec additionally assume the root SPECIFICATION F(root x) - F x == q and that a refusal is monotone along the axis "
+               "(bracket [x, 100] resp. [-100, x]); both are discharged for the constant-density oracles of the Example only",
+               "C13_probstep_nonpositive_p_never_returns_before_repair assumes 0 <= pleft (a probability); C13_probstep_ctor_guarded the root-beyond-"
+               "the-bracket-end hypothesis and termination",
                "Coq standard-library real-number axioms (classical reals, functional extensionality) for the R theorems"]
 THEOREM_NOTES = {
     "C13_fixed_admissible": "for the repaired constructor (ValueError for nb_of_points < 2, commit 'fix: create_from_fixed_nb_of_points ...' on fix-grid)",
@@ -96,24 +103,41 @@ THEOREM_NOTES = {
                               "(F strictly increasing; F(root x p) - F x = p required only while F x + p <= M; satisfiable: C13_probstep_nonvacuous); "
                               "neither says the code meets that specification.  Audit's list of what they leave out, against the CURRENT model: the exit "
                               "test `p_left < p/2` computed from the PREVIOUS middle_point, the bare `except` (incl. first root found / second raised), "
-                              "its arithmetic extrapolation and last_point ARE modelled since wave 6 (Model/ProbStepLoop.v; C13_probstep_right_shape / "
-                              "_left_shape, compared state by state); still NOT modelled: CTMCGridProbabilityStep.middle's xi == 0 / xip == 0 shortcuts, "
+                              "its arithmetic extrapolation and last_point ARE modelled since wave 6 (Model/ProbStepLoop.v; C13_probstep_right_shape_spec / "
+                              "_left_shape_spec, compared state by state); still NOT modelled: CTMCGridProbabilityStep.middle's xi == 0 / xip == 0 shortcuts, "
                               "its p == 0 and out-of-bracket fall-backs (oracle-checked only), brentq's xtol 1e-10 (tolerance of the ties), termination",
     "C13_probstep_loop_regular_is_ps_axis": "wave 7 (audit 4 A7: ps_axis was compared with nothing): the regular part h :: reg of the loop model's right half "
                               "axis IS ps_axis rootR h p (length reg) for any real root function agreeing with the loop's oracle; ps_axis is additionally "
                               "compared with the implementation directly (case file ps_axis: closed-form roots; constant density: every regular state, n up to 7; HEM: "
                               "the first two regular states of 2 axes -- interval arithmetic on the nested closed form is too slow beyond).  Right side "
                               "only (ps_axis has no left twin); the decomposition reg/ext is the one the loop produces (existential)",
-    "C13_probstep_right_loop / C13_probstep_left_loop / C13_probstep_ctor_admissible": "every branch of the two loops, for ARBITRARY oracles "
-                              "(quadrature test, root finder with None = raised); only hypothesis: a returned root lies strictly beyond the bracket end; "
+    "C13_probstep_right_loop / C13_probstep_left_loop / C13_probstep_ctor_admissible": "every branch of the two loops, for oracles the theorems quantify over "
+                              "(quadrature test, root finder with None = raised) under ONE stated hypothesis, ROOT BEYOND THE BRACKET END: a returned root "
+                              "lies strictly beyond the bracket end the search started from (forall x y, root x = Some y -> x < y).  It is monitored "
+                              "(histogram probloop_root_beyond_bracket_end), not proved of brentq, and false for p = 0 (refused since F-C13-9).  The bare "
+                              "`except` is the loop's NORMAL exit path: after a regular step p_left(middle) = tail(start_right_old) - p/2 >= p/2, the exit "
+                              "test cannot fire directly after a successful `try`, so every run with a regular step ends through a raising root search "
+                              "(evidence histogram probloop_branches: no `regular+no-except` run); "
                               "conditional on termination (the model's fuel; `while True` in the code: termination is not proved -- a root finder "
                               "that keeps succeeding while the test never fires loops forever)",
-    "C13_probstep_right_shape / C13_probstep_left_shape": "per-gap content incl. exhaustion: regular gaps carry exactly p = 2q under the root "
-                              "specification, then k >= 1 extrapolated states with one constant spacing 2d; the left loop is modelled as written "
+    "C13_probstep_right_shape_spec / C13_probstep_left_shape_spec": "wave 8 (audit 5b B4): renamed `_spec`.  STRUCTURE under the root specification: what "
+                              "is new is the structure of the output (regular states, then k >= 1 extrapolated states with one constant spacing 2d, "
+                              "exhaustion and except branches inside); the probability content `regular gaps carry p = 2q` is the hypothesis "
+                              "F(root x) - F x == q applied twice, `exhausted` is linked to neither F nor q, and the statement holds with F := 0, q := 0; the left loop is modelled as written "
                               "(delta = |start_right - middle_point|, measured from the inner end of the last gap), it is NOT the mirror image of the "
                               "right loop (delta = |middle_point - start_right|, from the moving end): observation O-C13-w6-1, the extrapolated left "
                               "steps are longer (constant density on [-2,2], h = p = 1/4: right 0.25, 1.1875, 2.125, 3.0625; left -0.25, -1.1875, -4, "
                               "-6.8125); no promise of the property is broken (the extrapolated gaps carry no promised probability)",
+    "C13_probstep_nonpositive_p_never_returns_before_repair / C13_probstep_ctor_guarded / C13_probstep_ctor_rejects": "wave 8 (audit 5b D5 = F-C13-9, "
+                              "repaired in /repo be7f020 = fix-w8-c13 e5add93): with the exhaustion test written as pleft m < p/2 and p <= 0 the unguarded loops "
+                              "return for no fuel, no root finder, no h (theorem about the code BEFORE the repair); the repaired constructor refuses p <= 0 and "
+                              "0 < p is a conclusion of `returns`.  nan is refused by the code (`not p > 0`) and has no Q counterpart.  Tied by group ctor_guard "
+                              "(probstep_ctor returns iff the implementation returned, p in {-1/4, 0, -1/1024, 1/4, 1/16}) and by an implementation oracle "
+                              "with a budget of integrate calls (both loops and the constructor, nan included)",
+    "C13_probstep_int_h_before_repair": "wave 8 (audit 5b D4 = F-C13-8, repaired in /repo c939deb = fix-w8-c13 6825494): Example, the old behaviour (int64 left array, "
+                              "states truncated towards zero: compute_left_axis_int_h) on the audit's kind of witness; the truncating model matched /repo b517e80 "
+                              "on the 7 int-h cases of group probloop_int_h before the repair, the float model matches after it (the group selects the model "
+                              "by the dtype of the returned array; a truncated axis is ALSO reported as a violation by the oracle)",
     "C13_gen_left_point_is_model / _right_point_ / _middle_ / C13_gen_middle_refine_n": "generated-from-source definitions (Gen/GenTieChain.v) equal the hand "
                               "models; Python int index = Z.of_nat k (non-negative coordinates, which is what the chain uses)",
     "middle": "the n-level theorems need one STATELESS middle (proved instance: the arithmetic mean); CTMCGridProbabilityStep.middle reads grid.h: "
@@ -127,7 +151,7 @@ THEOREM_NOTES = {
                         "integrate and with independent closed-form tails; in heavy-tailed regimes the constructor must refuse (ValueError) or deliver",
     "constructor exceptions": "an exception that is neither an argument guard nor the root search's refusal (no sign change on [-100, 100]) is reported as a violation",
 }
-LEVEL_TEXT = ("Proof: 42 Coq theorems + 8 examples (Q theorems closed under the global context; R theorems under the standard real-number axioms) "
+LEVEL_TEXT = ("Proof: 45 Coq theorems + 10 examples (Q theorems closed under the global context; R theorems under the standard real-number axioms) "
               "state that create_from_fixed_nb_of_points, CTMCUniformGrid (np.linspace as its mathematical sequence), CTMCGridGeometric (both "
               "constructors; np.geomspace as start*(stop/start)^(i/(n-1)) over R for every real bound, and over Q for rational common ratios, the "
               "two linked by a theorem; guards nb >= 2, h > 0, l < -h < h < r inside the model, each necessary and together sufficient over R) and CTMCCredit "
@@ -140,10 +164,13 @@ LEVEL_TEXT = ("Proof: 42 Coq theorems + 8 examples (Q theorems closed under the 
               "corollaries (`_spec`: IF the root finder is exact, every gap carries the requested probability p and refining yields the axis of "
               "step p/2 -- the first is the specification applied twice per step plus an induction); wave 6: the two "
               "construction loops compute_right_axis / compute_left_axis with their exhaustion and except branches are inside the model "
-              "(arbitrary quadrature / root-finder oracles): whenever they terminate the half axes are strictly increasing from +-h, the "
-              "assembled axis of CTMCGridProbabilityStep is admissible, and under the root specification the axis is `regular gaps of "
-              "probability exactly p, then >= 1 equally spaced extrapolated states` on both sides (left twin stated separately: the left "
-              "loop is not the mirror image of the right one); wave 7: the regular part of the loop model's right half axis is proved to be the "
+              "(quadrature / root-finder oracles under the stated hypothesis that a returned root lies strictly beyond the bracket end it started from -- "
+              "monitored, not proved of brentq, false for p = 0): whenever they terminate the half axes are strictly increasing from +-h and the "
+              "assembled axis of CTMCGridProbabilityStep is admissible; the bare `except` is the loops' normal exit path (no run with a regular step "
+              "ends otherwise); two further `_spec` statements give the STRUCTURE of the output under the root specification (regular states, then "
+              ">= 1 equally spaced extrapolated states, both sides, the left loop not being the mirror image of the right one) -- their probability "
+              "content is the specification applied twice; wave 8: minimum_probability_step <= 0 never returned (theorem about the unguarded loops; "
+              "F-C13-9) and an int h truncated the left states (F-C13-8): both repaired in /repo, the guard 0 < p is inside the model and a conclusion; wave 7: the regular part of the loop model's right half axis is proved to be the "
               "specification axis ps_axis, which is also compared with the implementation directly (closed-form roots).  left_point / right_point / middle are regenerated from the source by "
               "py2coq on every run and proved equal to the hand models.  The model is "
               "tied to /repo by exact vm_compute correspondence on dyadic inputs (fixed, credit, uniform with dyadic linspace step, refine^n, "
@@ -151,7 +178,7 @@ LEVEL_TEXT = ("Proof: 42 Coq theorems + 8 examples (Q theorems closed under the 
               "and random bounds) and by an oracle on every constructor of the implementation (dim 1-3, LevyModel / copula / SDE-model "
               "arguments).  Partial: promised tail / per-step probabilities are monitored (own integrate + independent closed-form tails, heavy "
               "tails included), not proved; brentq and the quadrature are specified, never verified; CTMCGridProbabilityStep.middle's fall-backs are "
-              "oracle-checked, not modelled; termination of the two `while True` loops is not proved.")
+              "oracle-checked, not modelled; termination of the two `while True` loops is not proved for p > 0 (for p <= 0 the public constructor hung before be7f020).")
 LEVEL_NOTE = ("Trusted: Coq kernel + vm_compute + coq-interval; floats modelled as Q / R (exact on the dyadic inputs of the correspondence, 1e-12 "
               "elsewhere); numpy array semantics; root finders (brentq) not modelled; mpmath for the independent tails.")
 TECHNIQUE = ("Coq proof over Q/list and R/list (induction on axes, lra/lia/nra, exp/ln monotonicity) + exact vm_compute correspondence on dyadic grids "
@@ -281,7 +308,7 @@ def build_credit(l, r, h, levels, sym):
         return CTMCCredit(h=h, level_a=(levels[0] if dim == 1 else list(levels)), model=dummy_model(dim), symmetric_grid=sym)
 
 
-GUARD_MESSAGES = ("h is too large for the truncation bounds", "expected nb_of_points", "expected h > 0", "CTMCCredit grid error",
+GUARD_MESSAGES = ("h is too large for the truncation bounds", "expected nb_of_points", "expected h > 0", "expected minimum_probability_step > 0", "CTMCCredit grid error",
                   "level a smaller than the last left point", "the number of points is greater than")
 # the truncation root search refuses a model whose requested quantile lies outside its search interval [-100, 100]
 # (scipy brentq: no sign change on the bracket): a refusal, not a grid -- allowed by the property ("returns ...")
@@ -464,6 +491,8 @@ def correspond(res):
     del PS_AXIS_CASES[:]
     groups.extend(_probstep_loop_cases(res, random.Random(res.seed + 6), viol, thorough))
     _ps_axis_tie(res, thorough)
+    # ---- 8. wave 8 (audit 5b D4 / D5): int h and minimum_probability_step <= 0
+    groups.extend(_probstep_argument_cases(res, viol))
 
     groups.append(("uniform", "Q * Q * Q * option (list Q * nat)",
                    "fun c => match c with (l, h, r, e) => match uniform_axis l h r, e with "
@@ -726,6 +755,119 @@ def _probstep_loop_cases(res, rng, viol, thorough):
                 lin_cases.append(tup([blit(right), qlit(A), qlit(h), qlit(p / 2), qlit(p * (A - h / 2)), lst([qlit(x) for x in run["axis"]])]))
     return [("probloop_tab", "bool * Q * list (Q * option Q) * list (Q * bool) * list Q", LOOP_TAB_CHECK, tab_cases),
             ("probloop_lin", "bool * Q * Q * Q * Q * list Q", LOOP_LIN_CHECK, lin_cases)]
+
+
+# ------------------------------------------------------------------------------------------ wave 8: int h (F-C13-8), p <= 0 (F-C13-9)
+INT_H_CHECK = ("fun c => match c with (trunc, A, h, q, w, e) => "
+               f"match (if (trunc : bool) then compute_left_axis_int_h (lin_exh_l A h q) (lin_root_l w A) {LOOP_FUEL} h "
+               f"else compute_left_axis (lin_exh_l A h q) (lin_root_l w A) {LOOP_FUEL} h) with "
+               "| Some xs => qlist_close (1 # 1000000000) xs e | None => false end end")
+CTOR_GUARD_CHECK = ("fun c => match c with (p, A, h, returned) => "
+                    f"match probstep_ctor p (lin_pleft_l A h) (lin_pleft_r A h) (lin_root_l (p * (A - h / 2)) A) (lin_root_r (p * (A - h / 2)) A) {LOOP_FUEL} h "
+                    "with Some _ => returned | None => negb returned end end")
+LOOP_BUDGET = 3000       # levy_measure.integrate calls (3 per iteration of a loop whose root searches raise)
+
+
+class _LoopBudget(Exception):
+    pass
+
+
+class _CountingMeasure:
+    """pass-through measure that raises once the budget of integrate calls is spent.  Raised inside the `try` it is swallowed by the
+    loop's bare `except`, but the exhaustion test's own integrate call is outside the `try`: the next iteration propagates it."""
+
+    def __init__(self, nu, budget):
+        self.nu, self.budget, self.calls = nu, budget, 0
+
+    def integrate(self, a, b):
+        self.calls += 1
+        if self.calls > self.budget:
+            raise _LoopBudget(self.calls)
+        return self.nu.integrate(a, b)
+
+
+def _probstep_argument_cases(res, viol):
+    """audit 5b D4 / D5.  (a) CTMCGridProbabilityStep / compute_*_axis with a Python-int h must return the axis of float(h), strictly
+    increasing (F-C13-8: int64 left array truncated the states); the left half axis is compared with the loop model on Coq-side
+    constant-density oracles -- with the truncating model compute_left_axis_int_h when the returned array has an integer dtype.
+    (b) minimum_probability_step <= 0 / nan must be refused with ValueError by both loops and by the constructor (F-C13-9: the loops
+    never returned); `never returned` is observed deterministically as: the budget of integrate calls is spent.  Group ctor_guard:
+    probstep_ctor (guard + loops on Coq-side oracles) returns iff the implementation returned."""
+    import types
+    import rpylib.grid.spatial as S
+    from rpylib.grid.spatial import CTMCGridProbabilityStep
+    from stepmeasure import StepMeasure, StepModel
+    int_cases, guard_cases = [], []
+    for A, h, p in ((Fr(2), 1, Fr(1, 4)), (Fr(3), 1, Fr(1, 4)), (Fr(5, 2), 1, Fr(1, 8)), (Fr(7, 2), 2, Fr(1, 4)), (Fr(5), 2, Fr(1, 8)),
+                    (Fr(5), 1, Fr(1, 16)), (Fr(7, 2), 1, Fr(1, 2))):
+        nu = StepMeasure([-A, A], [Fr(3)], strict=False)
+        model = StepModel(nu)
+        args = {"kind": "probstep-int-h", "A": float(A), "h": h, "p": float(p)}
+        try:
+            with warnings.catch_warnings():
+                warnings.simplefilter("ignore")
+                gi = CTMCGridProbabilityStep(h=h, model=model, minimum_probability_step=float(p))
+                gf = CTMCGridProbabilityStep(h=float(h), model=model, minimum_probability_step=float(p))
+                li = S.compute_left_axis(h=h, levy_measure=nu, minimum_probability_step=float(p))
+                ri = S.compute_right_axis(h=h, levy_measure=nu, minimum_probability_step=float(p))
+        except Exception as e:  # noqa
+            note_exception(res, "probstep_int_h_outcome", e, "CTMCGridProbabilityStep(h=<int>)", args)
+            continue
+        res.count(("probstep-int-h", str(A), h, str(p)), kind="CTMCGridProbabilityStep(h=<int>)")
+        ai, af = [float(x) for x in gi.axes[0]], [float(x) for x in gf.axes[0]]
+        truncated = bool(np.issubdtype(li.dtype, np.integer))
+        res.bump("probstep_int_h", "left half axis is an integer array (states truncated)" if truncated else "float arrays: same axis as float(h)")
+        why = grid_reason(gi) or (None if ai == af and ai == [float(x) for x in li] + [0.0] + [float(x) for x in ri]
+                                  else "axis differs from the axis built with float(h)")
+        if why:
+            viol("CTMCGridProbabilityStep(h=<int>): " + why.split(":")[-1].strip()[:70], kind="probstep-int-h", finding="F-C13-8", ctor="CTMCGridProbabilityStep",
+                 args=args, got_axis=ai, axis_with_float_h=af, reason=why)
+        w_, q_ = p * (A - Fr(h) / 2), p / 2
+        run = PLrecord_left(nu, float(h), float(p))
+        on_edge = any(abs((A - min(abs(Fr(m)), A)) / (2 * (A - Fr(h) / 2)) - q_) < Fr(1, 10 ** 9) for m, _ in run["tests"]) \
+            or any(abs(abs(Fr(k)) + w_ - A) < Fr(1, 10 ** 9) for k, _ in run["roots"])
+        if not on_edge:
+            int_cases.append(tup([blit(truncated), qlit(A), qlit(Fr(h)), qlit(q_), qlit(w_), lst([qlit(float(x)) for x in li])]))
+    for A, h in ((Fr(2), Fr(1, 4)), (Fr(3), Fr(1, 2))):
+        nu = StepMeasure([-A, A], [Fr(3)], strict=False)
+        for p in (Fr(-1, 4), Fr(0), Fr(-1, 1024), float("nan"), Fr(1, 4), Fr(1, 16)):
+            outcomes = {}
+            for name in ("compute_right_axis", "compute_left_axis", "CTMCGridProbabilityStep"):
+                cm = _CountingMeasure(nu, LOOP_BUDGET)
+                try:
+                    with warnings.catch_warnings():
+                        warnings.simplefilter("ignore")
+                        if name == "CTMCGridProbabilityStep":
+                            fake = types.SimpleNamespace(levy_triplet=types.SimpleNamespace(nu=cm), mass=StepModel(nu).mass)
+                            CTMCGridProbabilityStep(h=float(h), model=fake, minimum_probability_step=float(p))
+                        else:
+                            getattr(S, name)(h=float(h), levy_measure=cm, minimum_probability_step=float(p))
+                    outcomes[name] = "returned"
+                except _LoopBudget:
+                    outcomes[name] = "still looping"
+                except ValueError as e:
+                    outcomes[name] = "ValueError" if "expected minimum_probability_step > 0" in str(e) else f"ValueError: {e}"[:80]
+                except Exception as e:  # noqa
+                    outcomes[name] = f"{type(e).__name__}: {e}"[:80]
+            positive = p == p and p > 0
+            res.count(("probstep-p", str(A), str(h), str(p)), kind="CTMCGridProbabilityStep(minimum_probability_step <= 0 / > 0)")
+            for name, out in outcomes.items():
+                res.bump("probstep_p_guard", f"p {'> 0' if positive else '<= 0 or nan'}: {out}")
+                if out != ("returned" if positive else "ValueError"):
+                    viol(f"{name}(minimum_probability_step={float(p)!r}): " + ("never returns" if out == "still looping" else out)[:60],
+                         kind="probstep-p-nonpositive", finding="F-C13-9", ctor=name, args={"kind": "probstep-p-nonpositive", "A": float(A), "h": float(h), "p": repr(float(p))},
+                         outcome=out, budget_of_integrate_calls=LOOP_BUDGET)
+            if p == p:
+                guard_cases.append(tup([qlit(p), qlit(A), qlit(h), blit(outcomes["CTMCGridProbabilityStep"] == "returned")]))
+    return [("probloop_int_h", "bool * Q * Q * Q * Q * list Q", INT_H_CHECK, int_cases),
+            ("ctor_guard", "Q * Q * Q * bool", CTOR_GUARD_CHECK, guard_cases)]
+
+
+def PLrecord_left(nu, h, p):
+    import c13_probloop as PL
+    with warnings.catch_warnings():
+        warnings.simplefilter("ignore")
+        return PL.record("left", nu, h, p)
 
 
 # ------------------------------------------------------------------------------------------ wave 7: ps_axis against the code
